@@ -23,7 +23,7 @@ VARIANT = "vt"
 VARIANTS_NEEDED = ["vt", "omp", "serial", "san"]
 ENGINE = "vtomp"
 TECHNIQUE = ("stateless schedule exploration of the OpenMP regions under a controlled scheduler (coroutine team, DPOR by exact "
-             "dependency relation per region, bounded pre-emption at dependent accesses), exact access-bounds monitor, "
+             "dependency relation per region, bounded pre-emption at dependent accesses, regions serialised by an if-clause also run with the full team), exact access-bounds monitor, "
              "glue call monitor; model bound to real libgomp by output equality")
 RULE = ("case = (part, scenario, parameters); vt cases are executed for every team size of the tier; non-trivial = at least one "
         "parallel region ran with >= 2 threads that each executed part of the iteration space (vt), or the case compares two "
